@@ -32,13 +32,17 @@ type Extractor struct {
 	Fset *token.FileSet
 	// Emitters: callee full names that emit text; value = index of the template argument
 	Emitters map[string]int
-	rows     []Row
-	fn       string
-	seq      int
+	// AllReturns: record every return value (not only strings) as VAL:<canonical expr>
+	AllReturns bool
+	rows       []Row
+	fn         string
+	seq        int
 	// local closures: object -> literal
 	closures map[types.Object]*ast.FuncLit
 	// variables introduced by := / var inside the function (not parameters, range or type-switch bindings)
 	locals map[types.Object]bool
+	// `v, ok := E.(T)`: ok object -> "type(E)∈{T}"
+	okGuards map[types.Object]string
 }
 
 var DefaultEmitters = map[string]int{
@@ -104,6 +108,13 @@ func (x *Extractor) constStr(e ast.Expr) (string, bool) {
 // Canon renders an expression with local variables of named (dsl) types replaced by the
 // type name, so that sibling functions using different variable names compare equal.
 func (x *Extractor) Canon(e ast.Expr) string {
+	if e != nil {
+		if tv, ok := x.Info.Types[e]; ok && tv.Value != nil {
+			if _, isBin := ast.Unparen(e).(*ast.BinaryExpr); isBin {
+				return tv.Value.ExactString() // folded constant expression
+			}
+		}
+	}
 	switch v := ast.Unparen(e).(type) {
 	case nil:
 		return ""
@@ -111,6 +122,9 @@ func (x *Extractor) Canon(e ast.Expr) string {
 		obj := x.Info.Uses[v]
 		if obj == nil {
 			obj = x.Info.Defs[v]
+		}
+		if g, isOk := x.okGuards[obj]; isOk {
+			return g
 		}
 		if tv, ok := x.Info.Types[v]; ok && tv.Value != nil {
 			return tv.Value.ExactString()
@@ -506,6 +520,8 @@ func (x *Extractor) walkStmt(s ast.Stmt, c ctx) ctx {
 		for _, r := range st.Results {
 			if x.stringish(r) {
 				x.valueRow(c, "return", r)
+			} else if x.AllReturns {
+				x.add(c, "return", "VAL:"+x.Canon(r), nil, r.Pos())
 			} else {
 				x.walkExpr(r, c)
 			}
@@ -602,9 +618,19 @@ func (x *Extractor) Extract(name string, d *ast.FuncDecl) []Row {
 	x.seq = 0
 	x.closures = map[types.Object]*ast.FuncLit{}
 	x.locals = map[types.Object]bool{}
+	x.okGuards = map[types.Object]string{}
 	ast.Inspect(d.Body, func(n ast.Node) bool {
 		switch s := n.(type) {
 		case *ast.AssignStmt:
+			if s.Tok == token.DEFINE && len(s.Lhs) == 2 && len(s.Rhs) == 1 {
+				if ta, isTA := ast.Unparen(s.Rhs[0]).(*ast.TypeAssertExpr); isTA && ta.Type != nil {
+					if id, isId := s.Lhs[1].(*ast.Ident); isId {
+						if o := x.Info.Defs[id]; o != nil {
+							x.okGuards[o] = "type(" + x.Canon(ta.X) + ")∈{" + x.Canon(ta.Type) + "}"
+						}
+					}
+				}
+			}
 			if s.Tok == token.DEFINE {
 				for i, l := range s.Lhs {
 					if id, ok := l.(*ast.Ident); ok {
